@@ -167,8 +167,41 @@ def r19a(model, ctx):
               f"{RES}:{g.lineno(example[0])}")
 
 
+def _mutated_while_iterated(fn):
+    """loops of `fn` that iterate a dictionary view directly (D, D.items(), D.keys(), D.values()) and whose body deletes a key
+    of D: CPython raises RuntimeError('... mutated during iteration') at the next step. Returns [(loop, D)] for the offenders,
+    and the number of loops inspected."""
+    bad, n = [], 0
+    for lp in ast.walk(fn):
+        if not isinstance(lp, ast.For):
+            continue
+        it = lp.iter
+        if isinstance(it, ast.Call) and isinstance(it.func, ast.Attribute) and it.func.attr in ("items", "keys", "values") and not it.args:
+            d = unparse(it.func.value)
+        elif isinstance(it, (ast.Name, ast.Attribute)):
+            d = unparse(it)
+        else:
+            continue        # list(D.items()), sorted(D), tuple(D) ...: a copy is iterated
+        n += 1
+        for x in ast.walk(lp):
+            if isinstance(x, ast.Delete) and any(isinstance(t, ast.Subscript) and unparse(t.value) == d for t in x.targets):
+                bad.append((lp, d))
+            if isinstance(x, ast.Call) and isinstance(x.func, ast.Attribute) and unparse(x.func.value) == d and \
+                    x.func.attr in ("pop", "popitem", "clear"):
+                bad.append((lp, d))
+    return bad, n
+
+
 def r19b(model, ctx):
     R = "R-19b"
+    # attributes that resolve to None are removed from the request's attribute dictionary: over a copy of its items
+    fres = model.func(f"{RES}::ResourceManager.request.resolve")
+    bad, n_lp = _mutated_while_iterated(fres)
+    need(n_lp + len([x for x in ast.walk(fres) if isinstance(x, ast.For)]) >= 1, "resolve: no loop found")
+    ctx.check(not bad, R, "resolve:attrs-removed-over-a-copy", "no dictionary is shrunk while its own view is being iterated",
+              "resolve() deletes entries of `" + (bad[0][1] if bad else "-") + "` inside a loop over that dictionary's own view: a "
+              "resource with an attribute that is None (or a callable returning None) followed by another attribute makes "
+              "request() die with RuntimeError('OrderedDict mutated during iteration')", f"{RES}:{bad[0][0].lineno if bad else fres.lineno}")
     fn = model.func(f"{RES}::ResourceManager.request")
     g = CFG(fn, inline_closures=False)
     tests = [nid for nid, s in g.stmt.items() if isinstance(s, ast.If) and "in self._requested" in unparse(s.test)]
